@@ -107,6 +107,21 @@ def run(tier, seed):
     g = sumg.SumGrader(answers={'lower': '1', 'upper': '3', 'summand': 'c*n', 'summation_variable': 'n'}, variables=['c'], instructor_vars=['c'],
                        input_positions={'summand': 1}, blacklist=['cos'])
     must_refuse('SumGrader', 'instructor var', g, 'c*n', ('UndefinedVariable',))
+    # ... a restricted function is refused in EVERY box of a sum (either limit or the summand), under blacklist, whitelist and whitelist=[None]
+    S = rtcheck.real_module('mitxgraders/sampling.py')
+    for label, kw, bad in (('blacklist', dict(blacklist=['sin', 'cos']), 'sin'), ('whitelist', dict(whitelist=['exp']), 'cos'), ('whitelist=[None]', dict(whitelist=[None]), 'sqrt')):
+        g = sumg.SumGrader(answers={'lower': '1', 'upper': '10', 'summand': 'x^2', 'summation_variable': 'x'}, input_positions={'lower': 1, 'upper': 2, 'summand': 3, 'summation_variable': 4}, **kw)
+        must_accept('SumGrader restrictions', (label, 'clean'), g, ['1', '10', 'x^2', 'x'], 1)
+        neutral = {'sin': '0*sin(0)', 'cos': '0*cos(0)', 'sqrt': '0*sqrt(1)'}[bad]
+        for pos, lst in ((0, ['1 + %s' % neutral, '10', 'x^2', 'x']), (1, ['1', '10 + %s' % neutral, 'x^2', 'x']), (2, ['1', '10', 'x^2 + %s' % neutral, 'x']),
+                         (0, ['abs(1 + %s)' % neutral if label == 'blacklist' else '1 - %s' % neutral, '10', 'x^2', 'x'])):
+            must_refuse('SumGrader restrictions', (label, pos, lst[pos]), g, lst, ('InvalidInput',))
+    # sibling inputs that reach a box only through a dependent sampler are just as unavailable to the student as those the author's answer names
+    def dep_list():
+        return lg.ListGrader(answers=['1', 'x'], subgraders=[fgm.FormulaGrader(), fgm.FormulaGrader(variables=['x'], sample_from={'x': S.DependentSampler(formula='sibling_1+1')})], ordered=True)
+    must_accept('sibling variables (dependent sampler)', 'honest', dep_list(), ['1', 'x'], 1)
+    for cheat in ('sibling_1 + 1', 'x + sibling_1 - sibling_1', 'x*sibling_1^0', 'x + 0*sin(sibling_1)'):
+        must_refuse('sibling variables (dependent sampler)', cheat, dep_list(), ['1', cheat], ('UndefinedVariable',))
     # contracts under CPython
     F = 'mitxgraders/helpers/math_helpers.py::'
     for used, req in itertools.product([set(), {'sin'}, {'sin', 'cos'}], [[], ['sin'], ['sin', 'tan'], ['cos', 'sin']]):
